@@ -1,5 +1,6 @@
 import RbV.Model.IndexedFasta
 import RbV.Lemmas.IndexedFasta
+import RbV.Thm.GenSrcIdxFa
 /-!
 # C12 — indexed FASTA random access returns exactly the requested slice
 
@@ -188,6 +189,80 @@ parser model) establishes `WellFormed`, i.e. every case the driver accepts is in
 theorem wfCheck_sound (file : Bytes) (idx : Idx) (seq : Bytes) (h : wfCheck file idx seq = true) :
     WellFormed file idx seq := wfCheck_sound' file idx seq h
 
+/-! ## The source text of `IndexedReader`, translated (`RbV/Gen/SrcIdxFa.lean`, regenerated on every `./check C12`)
+
+`tools/rs2lean_cf.py` (sub-dialect "io") translates the text of `seek_to`, `read_line`, `read_into_buffer`,
+`IndexedReaderIterator::{fill_buffer, next}`; the `BufReader` is the reader of the mirror model (`fillBufOp`, `consumeOp`,
+`seekOp` of `Thm/GenSrcIdxFa.lean`: file + position + chunk schedule).  For these functions the tie code ↔ model is a
+theorem about the text.  `fuel` bounds the translated `while` loops: any number above the file length. -/
+
+open RbV.Thm.GenSrcIdxFa in
+/-- `seek_to` computes `offset + (start / line_bases) * line_bytes + start % line_bases`, seeks there and returns the
+column — exactly the model's `seekTo` — when `start ≤ len` and the offset fits `u64`; … -/
+theorem seek_to_source_eq_model (file : Bytes) (idx : Idx) (start : Nat) (s : St)
+    (hlb : 0 < idx.lb) (hst : start ≤ idx.len) (hfit : pos idx start < 2 ^ 64) :
+    Gen.SrcIdxFa.seekTo (seekOp file) s (toRec idx) start =
+      .ok (.ok (seekTo file idx start).2, (seekTo file idx start).1) :=
+  seekTo_eq_model file idx start s hlb hst hfit
+
+open RbV.Thm.GenSrcIdxFa in
+/-- … and panics (`assert!`) on a start behind the end of the record -/
+theorem seek_to_source_out_of_range_panics (file : Bytes) (idx : Idx) (start : Nat) (s : St) (hst : idx.len < start) :
+    Gen.SrcIdxFa.seekTo (seekOp file) s (toRec idx) start = .panic :=
+  seekTo_oob_panics file idx start s hst
+
+open RbV.Thm.GenSrcIdxFa in
+/-- **`read_line`, what its callers rely on** (the state in which a line end is left is *not* fixed): from a state with
+the loop invariant, (1) at the end of the stream the truncation error; (2) otherwise `Ok(n)`: `tr > 0` buffered bytes
+consumed, the first `n ≤ bases_left` of them appended to the output, and these are the bases between the old and the new
+column (`StepOk`). -/
+theorem read_line_source_contract (f : Bytes) (sched : Nat → Nat) (idx : Idx) (s : St) (lo cur line bl : Nat) (buf : Bytes)
+    (hlb : 0 < idx.lb) (hlB : idx.lb < idx.lB) (hs : ∀ k, 0 < sched k) (h64 : idx.lB < 2 ^ 64)
+    (inv : Inv f idx s lo cur line) (hbl : 0 < bl) :
+    (s.rest = [] → EofPost (Gen.SrcIdxFa.readLine (fillBufOp sched) consumeOp s (toRec idx) lo bl buf)) ∧
+    (s.rest ≠ [] → StepPost sched idx s lo bl buf
+      (Gen.SrcIdxFa.readLine (fillBufOp sched) consumeOp s (toRec idx) lo bl buf)) :=
+  ⟨fun h => readLine_eof sched idx s lo bl buf h inv.avail_le,
+   fun h => readLine_step f sched idx s lo cur line bl buf hlb hlB hs h64 inv hbl h⟩
+
+open RbV.Thm.GenSrcIdxFa in
+/-- **`read_into_buffer`: translated code = mirror model** on the returned bytes / error (`Agrees`), for every file and
+`.fai` entry with `0 < line_bases < line_bytes`, every chunk schedule, every earlier state of reader and buffer. -/
+theorem read_into_buffer_source_eq_model (file : Bytes) (sched : Nat → Nat) (idx : Idx) (start stop : Nat) (s0 : St)
+    (seq0 : Bytes) (fuel : Nat) (hlb : 0 < idx.lb) (hlB : idx.lb < idx.lB) (hs : ∀ k, 0 < sched k)
+    (h64 : idx.lB < 2 ^ 64) (hfit : pos idx start < 2 ^ 64) (hfuel : file.length < fuel) :
+    ∃ out, Gen.SrcIdxFa.readIntoBuffer (fillBufOp sched) consumeOp (seekOp file) s0 (toRec idx) start stop seq0 fuel
+        = .ok out ∧ Agrees (readIntoBuffer file sched idx start stop) out :=
+  readIntoBuffer_eq_model file sched idx start stop s0 seq0 fuel hlb hlB hs h64 hfit hfuel
+
+open RbV.Thm.GenSrcIdxFa in
+/-- **The translated `read_into_buffer` returns exactly `seq[start..stop]`** for every well-formed file and every chunk
+schedule, whatever the reader position and the buffer content were before (no mirror model in the statement). -/
+theorem read_source_correct (file seq : Bytes) (idx : Idx) (start stop : Nat) (sched : Nat → Nat) (s0 : St) (seq0 : Bytes)
+    (fuel : Nat) (wf : WellFormed file idx seq) (h1 : start ≤ stop) (h2 : stop ≤ idx.len) (hs : ∀ k, 0 < sched k)
+    (h64 : idx.lB < 2 ^ 64) (hfit : pos idx start < 2 ^ 64) (hfuel : file.length < fuel) :
+    ∃ s', Gen.SrcIdxFa.readIntoBuffer (fillBufOp sched) consumeOp (seekOp file) s0 (toRec idx) start stop seq0 fuel
+        = .ok (.ok (), s', (seq.drop start).take (stop - start)) := by
+  obtain ⟨⟨r, s', out⟩, h, ha⟩ :=
+    readIntoBuffer_eq_model file sched idx start stop s0 seq0 fuel wf.lb_pos wf.lB_gt hs h64 hfit hfuel
+  rw [read_correct file seq idx start stop sched wf h1 h2 hs] at ha
+  obtain ⟨hr, ho⟩ := ha
+  exact ⟨s', by rw [h, hr, ho]⟩
+
+open RbV.Thm.GenSrcIdxFa in
+/-- **Truncation inside the span**: the translated `read_into_buffer` returns the "FASTA file is truncated." error
+(`io::ErrorKind::UnexpectedEof`) — never `Ok` with short or shifted data. -/
+theorem read_source_truncated (file seq : Bytes) (idx : Idx) (start stop n : Nat) (sched : Nat → Nat) (s0 : St)
+    (seq0 : Bytes) (fuel : Nat) (wf : WellFormed file idx seq) (h1 : start < stop) (h2 : stop ≤ idx.len)
+    (hs : ∀ k, 0 < sched k) (hcut : n ≤ pos idx (stop - 1))
+    (h64 : idx.lB < 2 ^ 64) (hfit : pos idx start < 2 ^ 64) (hfuel : (file.take n).length < fuel) :
+    ∃ s' seq', Gen.SrcIdxFa.readIntoBuffer (fillBufOp sched) consumeOp (seekOp (file.take n)) s0 (toRec idx) start stop
+        seq0 fuel = .ok (.error eofErr, s', seq') := by
+  obtain ⟨⟨r, s', out⟩, h, ha⟩ :=
+    readIntoBuffer_eq_model (file.take n) sched idx start stop s0 seq0 fuel wf.lb_pos wf.lB_gt hs h64 hfit hfuel
+  rw [read_truncated file seq idx start stop n sched wf h1 h2 hs hcut] at ha
+  exact ⟨s', out, by rw [h]; exact congrArg (fun x => Rs.Res.ok (x, s', out)) ha⟩
+
 /-! ## Non-vacuity: a concrete two-line record, LF and CRLF -/
 
 private def exFile : Bytes := [62, 97, 10, 65, 67, 71, 10, 84, 10]        -- ">a\nACG\nT\n"
@@ -214,5 +289,22 @@ example : readIter exFile (fun k => k + 1) exIdx 0 4 = .ok ([65, 67, 71, 84], no
 /-- cut in front of the last base (offset 7): an error, not `ACG` -/
 example : readIntoBuffer (exFile.take 7) (fun _ => 2) exIdx 0 4 = .error .eof :=
   read_truncated exFile exSeq exIdx 0 4 7 (fun _ => 2) exWf (by decide) (by decide) (fun _ => by decide) (by decide)
+
+open RbV.Thm.GenSrcIdxFa in
+/-- the translated code, one byte per refill, a dirty buffer and a reader left somewhere else: `CGT` -/
+example : ∃ s', Gen.SrcIdxFa.readIntoBuffer (fillBufOp (fun _ => 1)) consumeOp (seekOp exFile) ⟨[1, 2], 1, 5⟩ (toRec exIdx)
+    1 4 [7, 7] 10 = .ok (.ok (), s', [67, 71, 84]) :=
+  read_source_correct exFile exSeq exIdx 1 4 (fun _ => 1) _ _ 10 exWf (by decide) (by decide) (fun _ => by decide)
+    (by decide) (by decide) (by decide)
+
+open RbV.Thm.GenSrcIdxFa in
+example : ∃ s' seq', Gen.SrcIdxFa.readIntoBuffer (fillBufOp (fun _ => 2)) consumeOp (seekOp (exFile.take 7)) ⟨[], 0, 0⟩
+    (toRec exIdx) 0 4 [] 10 = .ok (.error eofErr, s', seq') :=
+  read_source_truncated exFile exSeq exIdx 0 4 7 (fun _ => 2) _ _ 10 exWf (by decide) (by decide) (fun _ => by decide)
+    (by decide) (by decide) (by decide) (by decide)
+
+open RbV.Thm.GenSrcIdxFa in
+example : Gen.SrcIdxFa.seekTo (seekOp exFile) ⟨[], 0, 0⟩ (toRec exIdx) 3 = .ok (.ok 0, ⟨[84, 10], 0, 0⟩) :=
+  seek_to_source_eq_model exFile exIdx 3 _ (by decide) (by decide) (by decide)
 
 end RbV.Thm.C12
